@@ -90,7 +90,7 @@ example : insertComment (fun c => c == '\n') ['#'] 1 { text := "a\n#b".toList, c
 /-- no argument typed: 1; only `-` typed: -1 -/
 theorem argVal_none (c ct : Int) : argVal c ct none = 1 := rfl
 theorem argVal_dash (c ct : Int) : argOfKeys c ct [.dash] = -1 := by
-  simp [argOfKeys, argAppend, argVal]
+  simp [argOfKeys, argFeed, argAppend, argVal]
 
 /-- whatever is typed, the argument handed to a command is below the clamp ("don't exceed a
     million"), for any clamp > 1 with a replacement below it -/
@@ -106,19 +106,34 @@ theorem argVal_lt_clamp (c ct : Int) (h1 : 1 < c) (h2 : ct < c) (a : Option ArgS
     · omega
     · exact aux _
 
-/-- typing `Esc d₁ … Esc dₙ` (optionally after `Esc -`) accumulates exactly these digits -/
-theorem argAppend_digits (a : Option ArgStr) (ds : List Nat) (hne : ds ≠ []) :
-    (ds.map ArgKey.digit).foldl argAppend a =
+/-- `-` is accepted exactly when no argument or only `-` has been typed; after a digit the
+    `assert current is None or current == "-"` of the code fails (AssertionError) -/
+theorem argAppend_dash (cur : Option ArgStr) :
+    (argAppend cur .dash).isSome = true ↔
+      (cur = none ∨ cur = some { neg := true, digits := [] }) := by
+  cases cur with
+  | none => simp [argAppend]
+  | some a =>
+    obtain ⟨n, ds⟩ := a
+    cases n <;> cases ds <;> simp [argAppend]
+
+example : argAppend (some { neg := false, digits := [1] }) .dash = none := by decide
+
+/-- typing `Esc d₁ … Esc dₙ` (decimal digits, optionally after `Esc -`) never fails and
+    accumulates exactly these digits -/
+theorem argAppend_digits (a : Option ArgStr) (ds : List Nat) (hne : ds ≠ []) (hd : ∀ d ∈ ds, d < 10) :
+    (ds.map ArgKey.digit).foldl argFeed a =
       some { neg := (a.map (·.neg)).getD false, digits := (a.map (·.digits)).getD [] ++ ds } := by
   induction ds generalizing a with
   | nil => exact absurd rfl hne
   | cons d ds ih =>
+    have hd0 : d < 10 := hd d (by simp)
     simp only [List.map_cons, List.foldl_cons]
     by_cases hds : ds = []
     · subst hds
-      cases a <;> simp [argAppend]
-    · rw [ih _ hds]
-      cases a <;> simp [argAppend]
+      cases a <;> simp [argFeed, argAppend, hd0]
+    · rw [ih _ hds (fun x hx => hd x (by simp [hx]))]
+      cases a <;> simp [argFeed, argAppend, hd0]
 
 example : argOfKeys 1000000 1 [.dash, .digit 1, .digit 2] = -12 := by decide
 example : argOfKeys 1000000 1 [.digit 1, .digit 0, .digit 0, .digit 0, .digit 0, .digit 0, .digit 0] = 1 := by decide
